@@ -1,7 +1,7 @@
 (* C04 — collinear signal: the idler stays collinear for every poling, so the longitudinal mismatch is
    dkz(period) = dkz(unpoled) - 2 pi / (sign * period); the seed 2 pi / |dkz(unpoled)| is an exact root and is returned. *)
 From Coq Require Import Reals Lra Bool List.
-From SpdVerif Require Import Base.Rx Base.Vec3 Gen.Idler Gen.Poling Model.Idler Model.NM1d Model.Poling
+From SpdVerif Require Import Base.Rx Base.Vec3 Gen.Idler Gen.AutoCalc Model.Idler Model.NM1d Model.AutoCalc
   Proofs.C03_base Proofs.C03_idler Proofs.C04_nm Proofs.C04_poling.
 Local Open Scope R_scope.
 
